@@ -184,6 +184,12 @@ func (cs *State) Delete(entry StateEntry) {
 	found := thisLevel.remove(entry.ThisRange)
 	if entry.ThisLevel != entry.NextLevel && !entry.NextRange.IsEmpty() {
 		found = nextLevel.remove(entry.NextRange) && found
+	} else if entry.ThisLevel == entry.NextLevel && !entry.NextRange.Equals(entry.ThisRange) {
+		// Same-level compactions (ingest buffer -> its own level, max level) reserve
+		// both ranges in one level (CompareAndAdd appends both). When the next range
+		// differs from this range it must be released as well, otherwise it blocks
+		// every later compaction of that key range in the level for good.
+		nextLevel.remove(entry.NextRange)
 	}
 
 	if !found {
